@@ -609,6 +609,7 @@ func (e *Exec) run(params []Term) {
 		for i := 0; i < 2; i++ {
 			e.goalSk = append(e.goalSk, e.havoc("gsk", "Int", false))
 		}
+		e.g.goalSk = e.goalSk
 	}
 	e.loops = e.w.loopsOf(fn)
 	if e.loops.irreducible {
